@@ -25,6 +25,7 @@ import (
 //	{op:"fuzz", file: AF, mseed, n}                 n random reflective edits of Render(file), then NewFile (both AllowUnresolvable settings)
 //	{op:"defaults", edition}                        resolved features of an empty file of that edition (both constructions)
 //	{op:"pair", pair, b}, {op:"pairschema", pair}   proto2/proto3 message vs its editions translation (C38)
+//	{op:"xlate", file, xfile, tgt, items}           a proto2/proto3 abstract file vs its editions translation on string inputs (C38, xlate.go)
 //
 // out keys of file/linked: ok, snap, back, rt, bsnap, bsame, blazy, (linked:) file, nsame
 func init() {
@@ -456,6 +457,8 @@ func descExec(c core.Case) core.Case {
 		execPairSchema(c, out)
 	case "pairgen":
 		execPairGen(c, out)
+	case "xlate":
+		execXlate(c, out)
 	default:
 		harnessBug("unknown desc op %q", op)
 	}
